@@ -82,7 +82,7 @@ PROPS = {
         "case_sets": ["compile"],
         "ops": ["COMPILE"],
         "oracle_clauses": [r"c01-.*", r"c05-lex", r"c05-parse", r"c05-brackets", r"c12-.*", r"unreadable-.*"],
-        "lean_targets": ["PqlModel.Props.C01", "PqlModel.Props.C01LexRender", "PqlModel.Props.C01Sem"],
+        "lean_targets": ["PqlModel.Props.C01", "PqlModel.Props.C01LexRender", "PqlModel.Props.C01Sem", "PqlModel.Props.C01Syntactic"],
         "facts": ["binaryOps", "builtinIdentifiers", "knownFunctions", "writerArityGuard", "maybeParenBare", "precedence"],
         "rule": "COMPILE: hand-written corpus of expression shapes (parentheses, signs, index, in, every built-in as operand of "
                 "every operator class) + grammar-generated programs with expressions in every position; the oracle re-reads "
@@ -103,7 +103,7 @@ PROPS = {
     "C05": {
         "case_sets": ["compile", "content"],
         "ops": ["COMPILE"],
-        "oracle_clauses": [r"c05-.*", r"unreadable-.*"],
+        "oracle_clauses": [r"c05-.*", r"c01-keyword-function-name", r"unreadable-.*"],
         "lean_targets": ["PqlModel.Props.C05", "PqlModel.Props.C02Split"],
         "facts": [],
         "rule": "COMPILE on generated, corrupted-but-accepted and adversarial-content programs; the output must lex, end in one ';', "
